@@ -79,8 +79,18 @@ if run_check:
     if not Path(seedrepo).exists():
         subprocess.run(["git", "clone", "-q", "/repo", seedrepo], check=True)
     subprocess.run(f"git -C {seedrepo} fetch -q /repo HEAD && git -C {seedrepo} reset -q --hard FETCH_HEAD && git -C {seedrepo} clean -qfd", shell=True, check=True)
-    ap = subprocess.run(["git", "-C", seedrepo, "apply", "--3way", str(dst / "patch.diff")], stdout=subprocess.PIPE, stderr=subprocess.STDOUT, text=True)
+    # the patch was written against the pinned commit; /repo has since received `fix:` commits. If it no longer applies,
+    # a hand-ported equivalent (seeded/<id>/patch.ported.diff, same mutation on the repaired code) is used when present.
+    ported = dst / "patch.ported.diff"
+    use = ported if ported.exists() else dst / "patch.diff"
+    ap = subprocess.run(["git", "-C", seedrepo, "apply", str(use)], stdout=subprocess.PIPE, stderr=subprocess.STDOUT, text=True)
     meta["applies_to_current_head"] = ap.returncode == 0
+    meta["patch_used_for_check"] = use.name
+    if ap.returncode != 0:
+        meta["check_result"] = {"note": "patch.diff does not apply to the repaired /repo HEAD; needs a hand-ported patch.ported.diff", "git_apply": ap.stdout[-400:]}
+        (dst / "meta.json").write_text(json.dumps(meta, indent=1))
+        print("NEEDS-PORT", pid, x)
+        sys.exit(0)
     try:
         p = subprocess.run(["./check", pid, "--tier", "quick"], cwd="/verif", env=dict(os.environ, VERIF_REPO=seedrepo), stdout=subprocess.PIPE, stderr=subprocess.STDOUT, text=True, timeout=3000)
         lines = [l for l in p.stdout.splitlines() if l.startswith(("VIOLATION", "KNOWN", "OK"))]
